@@ -1,1 +1,66 @@
-Require Import BV.model.Bringup.
+(* C09 -- bring-up negotiates the NCP's protocol version and frames everything accordingly.
+   Statements only; proofs in proofs/Bringup_proofs.v.  [bring_up] transliterates
+   EZSP.startup_reset/reset/version/_switch_protocol_version; supported versions, the newest version,
+   header kinds and the default-config tables come from the generated files.  Tied to the code by the
+   C09 correspondence on the full stack (real ASH, Gateway, EZSP) against a simulated NCP. *)
+From Coq Require Import NArith List Bool.
+Import ListNotations.
+Require Import BV.gen.GenConfig BV.gen.GenCmd BV.model.EzspCodec BV.model.EzspCases BV.model.Config
+               BV.model.Bringup BV.proofs.Bringup_proofs.
+Open Scope N_scope.
+
+(* adopted v := v when bellows has command tables for v, else the newest version it knows *)
+
+(* every NCP version (any number at all): the first version query is in the legacy 3-byte format
+   and asks for version 4 *)
+Theorem c09_first_query_legacy : forall ncp_v, hd None (snd (bring_up ncp_v)) = Some [0; 0; 0; 4].
+Proof. exact first_query_legacy. Qed.
+
+(* the reported version is adopted; its own tables when supported, the newest known ones otherwise *)
+Theorem c09_adopts : forall ncp_v,
+  b_version (fst (bring_up ncp_v)) = ncp_v /\ b_handler (fst (bring_up ncp_v)) = adopted ncp_v.
+Proof. exact adopts. Qed.
+
+(* a second query, in the new format, exactly when the version differs from 4 *)
+Theorem c09_second_query : forall ncp_v, ncp_v <> 4 -> 4 <= ncp_v ->
+  List.length (snd (bring_up ncp_v)) = 2%nat /\
+  nth 1 (snd (bring_up ncp_v)) None =
+    Some (if adopted ncp_v <? 8 then [0; 0x00; 0xFF; 0x00; 0; ncp_v mod 256]
+          else [0; 0x00; 0x01; 0; 0; ncp_v mod 256]).
+Proof.
+  intros v Hne Hge. split; [rewrite (second_query v Hne); reflexivity | apply second_query_layout; assumption].
+Qed.
+
+Theorem c09_no_second_query_v4 : snd (bring_up 4) = [Some [0; 0; 0; 4]].
+Proof. exact no_second_query_v4. Qed.
+
+(* from then on every frame is formatted for the adopted version *)
+Theorem c09_framing : forall ncp_v fid,
+  later_header (fst (bring_up ncp_v)) fid =
+    header_tx (if adopted ncp_v =? 4 then 4 else if adopted ncp_v <? 8 then 5 else 8)
+              (b_seq (fst (bring_up ncp_v))) fid.
+Proof. exact framing. Qed.
+
+(* so that the default configuration can be written: a default table exists for the adopted handler,
+   for every reported version including unknown newer ones *)
+Theorem c09_config_total : forall ncp_v,
+  config_table_defined (fst (bring_up ncp_v)) = true /\ config_defaults (b_handler (fst (bring_up ncp_v))) <> [].
+Proof. intros v. split; [apply config_total | apply config_defaults_nonempty]. Qed.
+
+(* after every later reset, framing falls back to the legacy format until negotiation is repeated,
+   and the repeated negotiation is the same as the first *)
+Theorem c09_after_reset_legacy : forall st,
+  b_handler (do_reset st) = 4 /\ b_version (do_reset st) = 4 /\
+  version_frame (do_reset st) (b_version (do_reset st)) = Some [0; 0; 0; 4].
+Proof. exact after_reset_legacy. Qed.
+
+Theorem c09_second_bringup : forall ncp_v st, do_version (do_reset st) ncp_v = bring_up ncp_v.
+Proof. exact second_bringup_same. Qed.
+
+Theorem c09_pinned : SUPPORTED_VERSIONS = [4; 5; 6; 7; 8; 9; 10; 11; 12; 13; 14] /\ EZSP_LATEST = 14.
+Proof. split; reflexivity. Qed.
+
+Example c09_example :
+  snd (bring_up 13) = [Some [0; 0; 0; 4]; Some [0; 0; 1; 0; 0; 13]] /\ b_handler (fst (bring_up 200)) = 14
+  /\ snd (bring_up 6) = [Some [0; 0; 0; 4]; Some [0; 0; 0xFF; 0; 0; 6]].
+Proof. vm_compute. repeat split. Qed.
